@@ -398,3 +398,6 @@ _quick("C11", "C11_reentry", "a hold (Rcount 3) taken with the require-ack flag 
 _quick("C11", "C11_update", "a hold taken with SET v1 (2 symbolic bytes) under the require-ack flag and acknowledged; an update (update-when-locked flag) carrying SET v2 and the require-ack flag goes pending; leader flush, then a negative follower acknowledgement: exactly one non-SUCCED reply and the key's value is v1 again", ["-witness", "1"], reach=["update-pending"])
 
 CHECKS["C14"]["harnesses"].append(dict(pkg="protocol", name="C14_valueframes", bound="value frames (the Data field of LOCK / UNLOCK): a key/value map of one entry (key and value 1..3 symbolic bytes, lengths independent) through NewLockCommandDataSetKV and an array of two elements (1..3 symbolic bytes each) through NewLockCommandDataSetArray read back through the result accessors GetKVValue / GetArrayValue to the same values; the frame's length prefix is its size", flags=["-witness", "1"], reach=["end"]))
+
+_quick("C13", "C13_admincmd", "one administrative text command (ECHO, PING, QUIT, SHOW, CONFIG, CLIENT, FLUSHDB, FLUSHALL, REPLSET, SLAVEOF) with 0..3 arguments, the first two from 19 words / the empty string / 1..2 symbolic ASCII bytes, the third from 5 words / 2 symbolic bytes; server with a held key (value + queued request), a binary and a text connection in the stream table, REPLSET with and without a three-member replica set; INFO, SHUTDOWN, CONFIG GET <name> (package reflect) and the forms that dial another node are left out", ["-witness", "2000"])
+_thorough("C13", "C13_admincmd3", "as C13_admincmd with the third argument from the full alphabet too", ["-witness", "10000"])
